@@ -28,3 +28,15 @@ Example realloc_example :
   snd (crunk (realloc (mkWid 7 0 0) (50, 100)%Z) busy3v (Some 8)) = Some EInjected /\
   fst (fst (crunk (realloc (mkWid 7 0 0) (50, 100)%Z) busy3v (Some 8))) = busy3v.
 Proof. vm_compute. repeat split; reflexivity. Qed.
+
+(* the hypotheses of the create theorem hold of a concrete request *)
+From Verif Require Import Calcium.DeployProofs Calcium.DeployProofs2 Calcium.CreateProofs Calcium.CreateProofs2.
+Definition base3v : world := Eval vm_compute in base3.
+Example create_hyp_example : create_hyp base3v 9 (50, 100)%Z (Some [(0%nat, 2%nat); (1%nat, 1%nat)]).
+Proof.
+  split.
+  - intros n i. split; reflexivity.
+  - split; [repeat constructor; simpl; intuition discriminate|]. split.
+    + intros n cnt [E|[E|[]]]; inversion E; subst; eexists; split; reflexivity.
+    + intros n [<-|[<-|[]]]; discriminate.
+Qed.
